@@ -250,8 +250,21 @@ func closureCovered(p *Prog, db *ContractDB, fn *ssa.Function, prop string, cove
 			if !ok {
 				continue
 			}
+			pkgPath := ""
+			if o := outermost(fn); o.Pkg != nil {
+				pkgPath = o.Pkg.Pkg.Path()
+			}
 			for _, cc := range db.Callsites {
 				if cc.Key != k {
+					continue
+				}
+				hasProp := false
+				for _, pr := range cc.Props {
+					if pr == prop {
+						hasProp = true
+					}
+				}
+				if !hasProp || !callsiteInScope(cc, pkgPath) || (cc.InFunc != nil && !cc.InFunc.MatchString(shortFn(fn))) {
 					continue
 				}
 				nm := cc.Name
